@@ -88,11 +88,14 @@ def _(values: numpy.ndarray) -> set[int]:
             raise ValueError("Constant value is null, invalidating all rows.")
         return set()
 
+    # (`pandas.isnull` rather than `numpy.isnan`, which rejects text and object arrays)
+    if isinstance(values, FactorValues):
+        values = values.__wrapped__
     if len(values.shape) == 1:
-        return set(numpy.flatnonzero(numpy.isnan(values)))
+        return set(numpy.flatnonzero(pandas.isnull(values)))
 
     if len(values.shape) == 2:
-        return set(numpy.flatnonzero(numpy.any(numpy.isnan(values), axis=1)))
+        return set(numpy.flatnonzero(numpy.any(pandas.isnull(values), axis=1)))
 
     raise ValueError(
         "Cannot check for null indices for arrays of more than 2 dimensions."
